@@ -79,6 +79,9 @@ pub struct MockStreamFactory<const SECURE: bool> {
     pub connects: Arc<AtomicUsize>,
     pub peers: Arc<Mutex<Vec<PeerEnd>>>,
     pub port_base: u16,
+    /// when set, a connected stream reports this as its peer address instead of the address that was dialled (a connection made
+    /// through the unspecified address, a tunnel, a factory that canonicalises addresses)
+    pub peer_alias: Arc<Mutex<Option<SocketAddr>>>,
 }
 
 impl<const SECURE: bool> MockStreamFactory<SECURE> {
@@ -88,6 +91,7 @@ impl<const SECURE: bool> MockStreamFactory<SECURE> {
             connects: Arc::new(AtomicUsize::new(0)),
             peers: Default::default(),
             port_base,
+            peer_alias: Default::default(),
         }
     }
 }
@@ -112,7 +116,8 @@ impl<const SECURE: bool> StreamingFactory for MockStreamFactory<SECURE> {
             format!("[2001:db8::1]:{}", self.port_base + n as u16).parse().unwrap()
         };
         self.peers.lock().push(PeerEnd { local, remote, io: Some(b) });
-        Ok(MockStream { io: a, local, peer: remote })
+        let peer = (*self.peer_alias.lock()).unwrap_or(remote);
+        Ok(MockStream { io: a, local, peer })
     }
 }
 
